@@ -13,9 +13,10 @@ def run(ctx):
     if ctx.tier != "quick":
         lemma_sets_e1.string_lemmas(ctx, ctx.tier)
     ls = []
-    ls += C03.p2_lemmas(ctx.tier, lengths=(list(range(2, 8)) if ctx.tier == "quick" else None))
-    ls += lemmas_stage2.p3_lemmas(ctx.tier)
-    ls += lemmas_stage2.u1_lemmas(ctx.tier)
+    quick = ctx.tier == "quick"
+    ls += C03.p2_lemmas(ctx.tier, lengths=(list(range(2, 7)) if quick else None), with_long=not quick)
+    ls += lemmas_stage2.p3_lemmas(ctx.tier, ndjson=((0,) if quick else (0, 1)))
+    ls += [l for l in lemmas_stage2.u1_lemmas(ctx.tier) if not quick or ".K2." in l.name or (".fresh" in l.name and ".json." in l.name)]
     run_lemmas(ctx, ls)
     try:
         from . import C07
